@@ -4,6 +4,7 @@ package c12
 import (
 	"encoding/json"
 	"fmt"
+	"strings"
 	"sync"
 	"testing"
 	"time"
@@ -49,7 +50,8 @@ func genCase(t *rapid.T) Case {
 		st.Kind = rapid.SampledFrom([]string{"open", "open", "data", "data", "poll", "close", "bsend", "bsend", "bclose", "group", "group", "group"}).Draw(t, "kind")
 		switch st.Kind {
 		case "data":
-			st.Arg = rapid.SampledFrom([]string{"valid", "valid", "valid", "malformed", "wrong-type", "empty-list", "not-base64"}).Draw(t, "arg")
+			st.Arg = rapid.SampledFrom([]string{"valid", "valid", "valid", "malformed", "wrong-type", "empty-list", "not-base64",
+				"msg-empty-array", "msg-two-strings", "msg-null", "msg-object", "msg-int-array", "msg-nested-array", "msg-missing", "id-missing"}).Draw(t, "arg")
 			st.N = rapid.IntRange(1, 15).Draw(t, "n")
 		case "poll", "close":
 			st.Arg = rapid.SampledFrom([]string{"valid", "valid", "valid", "malformed", "wrong-type"}).Draw(t, "arg")
@@ -128,6 +130,22 @@ func runCase(c *Case) vh.Outcome {
 			return []byte(`[]`)
 		case "not-base64":
 			return []byte(`[{"id":"` + id + `","msg":["%%% not base64 %%%"]}]`)
+		case "msg-empty-array":
+			return []byte(`[{"id":"` + id + `","msg":[]}]`)
+		case "msg-two-strings":
+			return []byte(`[{"id":"` + id + `","msg":["YQ==","Yg=="]}]`)
+		case "msg-null":
+			return []byte(`[{"id":"` + id + `","msg":null}]`)
+		case "msg-object":
+			return []byte(`[{"id":"` + id + `","msg":{"a":1}}]`)
+		case "msg-int-array":
+			return []byte(`[{"id":"` + id + `","msg":[42]}]`)
+		case "msg-nested-array":
+			return []byte(`[{"id":"` + id + `","msg":[["YQ=="]]}]`)
+		case "msg-missing":
+			return []byte(`[{"id":"` + id + `"}]`)
+		case "id-missing":
+			return []byte(`[{"msg":"hello"}]`)
 		}
 		var msgs []json.RawMessage
 		for i := 0; i < n; i++ {
@@ -188,6 +206,11 @@ func runCase(c *Case) vh.Outcome {
 			case st.Arg == "empty-list":
 				allowed = []int{200}
 			case st.Arg == "malformed", st.Arg == "wrong-type", st.Arg == "not-base64":
+				allowed = []int{400}
+			case strings.HasPrefix(st.Arg, "msg-"):
+				// odd message shapes on any session: rejected or ignored, but always answered
+				allowed = []int{200, 400}
+			case st.Arg == "id-missing":
 				allowed = []int{400}
 			case state == "open":
 				allowed = []int{200}
